@@ -159,7 +159,16 @@ func report(o *checkOpts, prog *Program, results []*UnitResult, genFails map[str
 	if prop != "" && !o.updateLedger && o.unit == "" {
 		var bv []violation
 		bounded, bv = runBounded(o)
-		viols = append(viols, bv...)
+		for _, v := range bv {
+			// a bounded stand-in whose failure is a listed open finding: the finding is identified by the entry AND by the
+			// failing input it names, so a different failure of the same entry is still a violation
+			if kf, ok := knownOpen[v.Obligation]; ok && (kf.Input == "" || strings.Contains(v.Detail, kf.Input)) {
+				knownHit[v.Obligation] = true
+				knownLines = append(knownLines, fmt.Sprintf("KNOWN-FINDING: property=%s %s: %s", kf.Property, v.Obligation, kf.What))
+				continue
+			}
+			viols = append(viols, v)
+		}
 	}
 	boundedOut = bounded
 	// replay files
